@@ -149,3 +149,97 @@ def check_plane_reader(ctx, rule, f):
             else:
                 ctx.ok(rule, f, 'seismic_buffer[%s]' % txt[:40], 'local index is origin free', nontrivial=False)
     return n_src, n_loc
+
+
+# ---------------------------------------------------------------------------
+# The reduced-I/O reader addresses the SOURCE by window-local ordinals (read_line(set*bs0 + i), whole crossline rows):
+# that is a FILE-frame index only when the window is the whole file.  Either its argument carries the window origin,
+# or every path on which the reader survives establishes  source inline count == window inline count  and
+# source crossline count == window crossline count.
+
+def _tuple_elts(txt):
+    try:
+        e = ast.parse(txt, mode='eval').body
+    except SyntaxError:
+        return None
+    return [U(x) for x in e.elts] if isinstance(e, ast.Tuple) else None
+
+
+def _expand(txt, defs, depth=0):
+    while txt in defs and depth < 4:
+        txt = defs[txt]
+        depth += 1
+    return txt
+
+
+def _eq_pairs(facts):
+    defs = {a[1]: a[2] for a in facts if a[0] == 'def'}
+    pairs = set()
+    for a in facts:
+        if a[0] != '==':
+            continue
+        l, r = _expand(a[1], defs), _expand(a[2], defs)
+        tl, tr = _tuple_elts(l), _tuple_elts(r)
+        if tl is not None and tr is not None and len(tl) == len(tr):
+            for x, y in zip(tl, tr):
+                pairs.add(frozenset((_expand(x, defs), _expand(y, defs))))
+        else:
+            pairs.add(frozenset((l, r)))
+    return pairs
+
+
+def check_reduced_reader(ctx, rule, producer, filler, edge):
+    """producer: the function that creates the reduced-I/O reader and passes it to ``filler`` through ``edge``."""
+    from .facts import FactMap
+    fr = Frame(filler)
+    A_ = lambda n: A(n)
+    ord_real = A_('O_IL') + A_('SET') * A_('BS0') + A_('i')
+    ord_last = A_('O_IL') + A_('SET') * A_('BS0') + A_('PTR') - 1
+    calls = [c for c in ast.walk(filler.node) if isinstance(c, ast.Call) and isinstance(c.func, ast.Attribute) and
+             c.func.attr == 'read_line' and c.args]
+    if not calls:
+        return 0
+    local = []
+    for c in calls:
+        p = fr.ev(c.args[0])
+        if p is None:
+            raise AnalysisError('%s: read_line argument `%s` does not normalise' % (filler.qualname, U(c.args[0])))
+        if p in (ord_real, ord_last):
+            ctx.ok(rule, filler, c, 'reduced-I/O reader is addressed by a FILE-frame inline ordinal (window origin included)')
+        elif p + A_('O_IL') in (ord_real, ord_last):
+            local.append(c)
+        else:
+            ctx.fail(rule, filler, enclosing_stmt(c), 'reduced-I/O reader is asked for line `%s` = %r, which is neither the '
+                     'window-local nor the file ordinal of the plane being filled' % (U(c.args[0])[:50], p), line=c.lineno)
+    if not local:
+        return len(calls)
+    # window-local ordinals: the reader may only survive when the window is the whole file
+    rparam = [p_ for p_, v in edge.binding.items() if isinstance(v, ast.Name) and any(
+        isinstance(c.func.value, ast.Name) and c.func.value.id == p_ for c in local)]
+    if not rparam:
+        raise AnalysisError('%s: cannot tell which argument carries the reduced-I/O reader' % filler.qualname)
+    var = edge.binding[rparam[0]].id
+    fm = FactMap(producer.node)
+    bad = None
+    for facts in fm.paths_at(edge.call):
+        d = fm.resolve_def(var, facts)
+        if d == 'None':
+            continue
+        pairs = _eq_pairs(facts)
+        src = [x for x in edge.binding.values() if isinstance(x, ast.Name) and 'file' in x.id]
+        il_ok = any(len(pr) == 2 and any('.ilines' in t and 'geom' not in t for t in pr) and
+                    any('geom.ilines' in t for t in pr) for pr in pairs)
+        xl_ok = any(len(pr) == 2 and any('.xlines' in t and 'geom' not in t for t in pr) and
+                    any('geom.xlines' in t for t in pr) for pr in pairs)
+        if not (il_ok and xl_ok):
+            bad = ('inline' if not il_ok else 'crossline')
+            break
+    if bad:
+        ctx.fail(rule, producer, enclosing_stmt(edge.call), 'the reduced-I/O reader is addressed by window-local line ordinals '
+                 '(`%s`) but reaches the plane loop on a path that does not establish source %s count == window %s count: '
+                 'for a window that does not start at the first %s the wrong lines (and their headers) are converted' % (
+                     U(local[0])[:60], bad, bad, bad), line=edge.call.lineno, key_extra='reduced-reader-frame')
+    else:
+        ctx.ok(rule, producer, edge.call, 'reduced-I/O reader (window-local ordinals) survives only when the window is the whole '
+               'file: source and window line counts are compared on both axes')
+    return len(calls)
